@@ -29,6 +29,9 @@ RULE = (
 RULE += (
     ' Plain cases go through the documented loader a quarter of the time.'
 )
+RULE += (
+    ' Round 9: sub-check `definitions`: two elements that differ only in a lookalike default (0/false, 1/true, nested), one of them also passed to serialize_json as a member of `definitions`; each property must show its own default in the document (inline or through the reference).'
+)
 ASSUMPTIONS = [
     "defaults are compared with type identity (true/1/1.0 are all different)",
     "a default and its composition parent are one node in statham's normal form when the composition has a single branch; the multiset comparison ignores location for that reason",
@@ -272,6 +275,63 @@ def exec_module(text):
 
 
 @st.composite
+def definitions_cases(draw):
+    """Two elements that differ ONLY in a default which a sloppy comparison confuses (0 / false, 1 / true, nested), one of
+    them also handed to serialize_json as a member of `definitions`: the other one must keep its own default in the
+    document, whether it is written inline or as a reference."""
+    base = draw(st.sampled_from([{"type": "integer"}, {"type": ["integer", "boolean"]}, {}, {"type": "array"},
+                                 {"type": "object", "title": "Thing", "properties": {"p": {"type": "integer"}}}]))
+    d1 = draw(st.one_of(st.sampled_from([0, 1, False, True, [0], {"a": 1}, [True, 0]]), defaults))
+    alike = jv.lookalike(d1)
+    d2 = draw(st.sampled_from(alike)) if alike else draw(defaults)
+    return {"where": "definitions", "base": base, "default": d1, "other_default": d2,
+            "first": draw(st.booleans())}
+
+
+def definitions_predicate(case, stats):
+    from statham.schema.elements import Element
+    from statham.schema.property import Property
+    from statham.serializers import serialize_json
+
+    def variant(default, tag):
+        s = dict(copy.deepcopy(case["base"]), default=copy.deepcopy(default))
+        if "title" in s:
+            s["title"] = s["title"] + tag  # one class name per class (two classes under one name are ambiguous input)
+        return observe.safe_parse(s)
+
+    mine, other, shared = variant(case["default"], "A"), variant(case["other_default"], "B"), variant(case["other_default"], "C")
+    stats.case(canon(case), True, ["where:definitions"], sample=case)
+    if mine[0] != "ok" or other[0] != "ok" or shared[0] != "ok":
+        return []
+    props = {"p": Property(mine[1]), "q": Property(other[1])}
+    if not case.get("first"):
+        props = dict(reversed(list(props.items())))
+    tree = Element(properties=props)
+    try:
+        doc = serialize_json(tree, definitions={"flag_or_level": shared[1]})
+    except Exception as exc:  # noqa: BLE001
+        return [{"sub": "json", "kind": "serialize-json-raised:" + type(exc).__name__}]
+    defs = doc.get("definitions", {})
+
+    def resolved(node):
+        seen = 0
+        while isinstance(node, dict) and isinstance(node.get("$ref"), str) and seen < 5:
+            node = defs.get(node["$ref"].split("/")[-1], {})
+            seen += 1
+        return node
+
+    fails = []
+    for name, want in (("p", case["default"]), ("q", case["other_default"])):
+        node = resolved(doc.get("properties", {}).get(name))
+        # (1 and 1.0 are one JSON value - elements differing only in that are equal, and either spelling may be written;
+        # true and 1 are not)
+        if not isinstance(node, dict) or "default" not in node or not jv.json_eq(node["default"], want):
+            fails.append({"sub": "json", "kind": "default-taken-from-a-lookalike-definition", "property": name,
+                          "declared": want, "got": node.get("default", "<absent>") if isinstance(node, dict) else repr(node)})
+    return fails
+
+
+@st.composite
 def subclass_cases(draw):
     """Model classes written in the DSL: a subclass re-declaring `default` (and `description`) over its parent's -
     often with a value that a sloppy comparison takes for the parent's (true/1, 0/false, nested)."""
@@ -337,6 +397,8 @@ def subclass_predicate(case, stats):
 def predicate(case, stats):
     if case.get("where") == "dsl-subclass":
         return subclass_predicate(case, stats)
+    if case.get("where") == "definitions":
+        return definitions_predicate(case, stats)
     if case.get("where") == "shared-ref":
         return shared_predicate(case, stats)
     schema = case["schema"]
@@ -491,5 +553,5 @@ replay_predicate = predicate
 
 
 def run_shard(ctx, stats):
-    strat = st.one_of(cases(), cases(), cases(), cases(), shared_cases(), subclass_cases())
+    strat = st.one_of(cases(), cases(), cases(), cases(), shared_cases(), subclass_cases(), definitions_cases())
     return runner.hyp_run(ctx, stats, strat, predicate, BUDGET[ctx.tier])
